@@ -120,6 +120,11 @@ func boolInt(b bool) int {
 func familyExt(family, id string, g *Gen, blocks, maxTx int) *Scenario {
 	switch family {
 	case "gov":
+		if blocks < 18 {
+			blocks = 18
+		}
+		return g.GovStory(id, blocks)
+	case "govmix":
 		return g.Mixed(id, blocks, maxTx, GovKinds)
 	case "ons":
 		return g.Mixed(id, blocks, maxTx, OnsKinds)
